@@ -235,6 +235,11 @@ func (e *Engine) pkgOfContract(ct *Contract, callee *ssa.Function) *types.Packag
 			return p.Pkg.Pkg
 		}
 	}
+	if ct.Pkg != "" {
+		if p := e.pkgByName(ct.Pkg); p != nil {
+			return p
+		}
+	}
 	// iface:pkg.Iface.Method / lib:pkg.Func
 	k := ct.Key
 	if i := strings.Index(k, ":"); i >= 0 {
@@ -690,6 +695,11 @@ func (fx *FuncCtx) builtinModel(st *State, key string, callee *ssa.Function, arg
 			hlT := fx.heapGet(st, "G$hdrlen", hl.Sort)
 			fx.assume(st, "(>= "+np+" "+pos0+")")
 			fx.assume(st, imp(okT, "(= "+np+" (+ "+pos0+" (select "+hlT+" "+pos0+")))"))
+			// a successful scan of "%x;" consumed at least one digit and the semicolon
+			fx.assume(st, imp(okT, "(>= (select "+hlT+" "+pos0+") 2)"))
+			if gl := fx.eng.specs.Ghosts["rd_len"]; gl != nil {
+				fx.assume(st, "(<= "+np+" (select "+fx.heapGet(st, "G$rd_len", gl.Sort)+" "+rd.T+"))")
+			}
 			fx.heapSet(st, "G$rd_pos", g.Sort, "(store "+h+" "+rd.T+" "+np+")")
 		}
 		call := site.(ssa.CallInstruction).Common()
